@@ -39,6 +39,9 @@ Menu == <<
   [c |-> "dis_mov",     api |-> "dis",        kind |-> "pure",  m |-> 0, ex |-> FALSE],  \* 8b4508, ModRM row with disp8
   [c |-> "dis_shl",     api |-> "dis",        kind |-> "pure",  m |-> 0, ex |-> FALSE],  \* d3e0, hands out the r_cl row
   [c |-> "dis_movs",    api |-> "dis",        kind |-> "pure",  m |-> 0, ex |-> FALSE],  \* a4, operands rebuilt in special_opcodes
+  [c |-> "dis_fsm",     api |-> "dis",        kind |-> "pure",  m |-> 0, ex |-> FALSE],  \* 648b03, mov eax, fs:[ebx]: displacement-less ModRM row + segment override
+  [c |-> "dis_m",       api |-> "dis",        kind |-> "pure",  m |-> 0, ex |-> FALSE],  \* 8b03, the same ModRM row, no override, 32-bit
+  [c |-> "dis_m8",      api |-> "dis",        kind |-> "pure",  m |-> 0, ex |-> FALSE],  \* 8a03, the same ModRM row, 8-bit operand
   [c |-> "asm_mov",     api |-> "asm",        kind |-> "pure",  m |-> 0, ex |-> FALSE],  \* "mov eax, [ebx+4]"
   [c |-> "asm_shl",     api |-> "asm",        kind |-> "pure",  m |-> 0, ex |-> FALSE],  \* "shl eax, cl"
   [c |-> "att_mov",     api |-> "asm_att",    kind |-> "pure",  m |-> 0, ex |-> FALSE],  \* "movl 4(%ebx), %eax"
@@ -49,6 +52,8 @@ Menu == <<
   [c |-> "lift_shl",    api |-> "lift",       kind |-> "pure",  m |-> 0, ex |-> FALSE],  \* get_instr_expr on the same object
   [c |-> "simp_T",      api |-> "expr_simp",  kind |-> "pure",  m |-> 0, ex |-> FALSE],  \* shared tree over eax, w
   [c |-> "simp_S",      api |-> "expr_simp",  kind |-> "pure",  m |-> 0, ex |-> FALSE],  \* expr_simp(expr_simp(T))
+  [c |-> "simp_C",      api |-> "expr_simp",  kind |-> "pure",  m |-> 0, ex |-> FALSE],  \* shared tree with adjacent slices of one source in a composition (slice fusion)
+  [c |-> "eval_C_m2",   api |-> "eval_expr",  kind |-> "read",  m |-> 2, ex |-> FALSE],  \* the same tree evaluated on m2
   [c |-> "eval_w_m1",   api |-> "eval_expr",  kind |-> "read",  m |-> 1, ex |-> FALSE],  \* identifier absent from the state
   [c |-> "eval_w_m2",   api |-> "eval_expr",  kind |-> "read",  m |-> 2, ex |-> FALSE],  \* same identifier, bound to 7
   [c |-> "eval_es_m1",  api |-> "eval_expr",  kind |-> "read",  m |-> 1, ex |-> FALSE],  \* segment register, absent from m1 until emul_sete_m1
@@ -79,7 +84,7 @@ AllCalls == Menu \o Extra
 (* literals (byte strings, text lines), the shared instruction objects, the shared identifier w, the      *)
 (* shared trees T, U, Q, the program counter constant, the module-level register expressions of ia32_sem, *)
 (* and the one piece of interpreter-wide state every later import of the client depends on: sys.path      *)
-Fixtures == <<"lit", "I_shl", "I_add", "I_push", "I_pop", "I_moves", "I_sete", "I_div", "w", "T", "U", "Q", "pc", "regs", "sys.path">>
+Fixtures == <<"lit", "I_shl", "I_add", "I_push", "I_pop", "I_moves", "I_sete", "I_div", "w", "T", "U", "Q", "C", "pc", "regs", "sys.path">>
 ASSUME PrintT("MENU " \o ToJson([calls |-> AllCalls, n |-> N, fixtures |-> Fixtures]))
 
 VARIABLES cfg,    \* cache configuration of the process that runs the history
